@@ -346,3 +346,39 @@ Proof.
   intros H1 Ht H2. pose proof (dall_reachable _ _ _ H1) as A.
   eapply direct_after_torn_run; eauto. exact (d2_torn _ (proj2 A) Ht).
 Qed.
+
+(* ---- what exec can observe from writeContext (direct writer) ---- *)
+
+Lemma direct_exec_view_lemma has_to ls s t n e :
+  drun has_to d_init ls = Some s -> d_broken s = false -> result_of (d_thr s) t = Some (n, e) ->
+  let f := frame_of (d_thr s) t in
+  (e = None /\ n = length f /\ frame_present (frame_of (d_thr s)) t (d_wire s))
+  \/ (e <> None /\ n = 0 /\ forall ls2 s2, drun has_to s ls2 = Some s2 -> bytes_of t (d_wire s2) = [])
+  \/ (e <> None /\ 0 < n < length f /\ must_close (n, e) = true /\ bytes_of t (d_wire s) = firstn n f /\
+      forall ls2 s2, drun has_to s ls2 = Some s2 -> d_wire s2 = d_wire s)
+  \/ (e <> None /\ 0 < n /\ n = length f /\ must_close (n, e) = true /\ frame_present (frame_of (d_thr s)) t (d_wire s)).
+Proof.
+  intros Hrun Hb Hr. cbv zeta. pose proof (dinv_reachable _ _ _ Hrun) as I.
+  destruct e as [x|].
+  2: { left. split; [reflexivity|]. exact (direct_success_whole_lemma has_to ls s Hrun t n Hb Hr). }
+  right. destruct (Nat.eq_dec n 0) as [->|Hn0].
+  - left. split; [discriminate|]. split; [reflexivity|]. intros ls2 s2 H2.
+    assert (Hrun2 : drun has_to d_init (ls ++ ls2) = Some s2).
+    { unfold drun in *. rewrite lts_run_app, Hrun. exact H2. }
+    pose proof (drun_result_stable _ _ _ _ _ _ H2 Hr) as Hr2.
+    rewrite (direct_count_exact_lemma has_to _ s2 Hrun2 t 0 (Some x) Hr2). reflexivity.
+  - right. assert (Hin : In (t, n) (d_hist s)).
+    { destruct (di_count s I t _ Hr) as [H|[H _]]; simpl in *; [exact H|lia]. }
+    pose proof (di_bound s I t n Hin) as Hle.
+    assert (Hmc : must_close (n, Some x) = true) by (apply must_close_partial; lia).
+    destruct (Nat.eq_dec n (length (frame_of (d_thr s) t))) as [Heq|Hne].
+    + right. split; [discriminate|]. split; [lia|]. split; [exact Heq|]. split; [exact Hmc|].
+      rewrite (di_wire s I). apply in_pieces_present. rewrite <- Heq. exact Hin.
+    + left. split; [discriminate|]. split; [lia|]. split; [exact Hmc|].
+      split; [exact (direct_count_exact_lemma has_to ls s Hrun t n (Some x) Hr)|].
+      assert (Ht : d_torn s = true).
+      { destruct (d_torn s) eqn:Et; [reflexivity|]. exfalso.
+        destruct (di_shape_b s I Et t n Hin) as [[H|H]|H]; simpl in H; try lia.
+        unfold result_of in Hr. rewrite H in Hr. discriminate. }
+      intros ls2 s2 H2. eapply direct_nothing_after_partial_lemma; eauto.
+Qed.
